@@ -128,6 +128,20 @@ def check(spec):
             key = {"py": int, "np": np.int64, "np32": np.int32, "t0": torch.tensor}[form](i)
             _check_sample(mw[key], spec, ref, top, i + n if i < 0 else i, n)
             evals += 1
+        elif kind == "oob":
+            # an index >= len is not answered with some other sample (the wrapped datasets raise, so does the wrapper); indices below
+            # -len are outside this check: the wrapper adds len once and hands the still negative index on, which the wrapped
+            # containers answer by their own negative indexing - existing behaviour that C01 does not speak about
+            j = n + acc[1]
+            if not any(it in ("x", "class", "aux", "aux2") for it in spec["mode"]):
+                continue  # a mode made of `index` / ctx items only never touches the wrapped dataset
+            try:
+                got = mw[j]
+            except Exception:
+                pass
+            else:
+                raise Violation("out-of-range-index-answered", f"index {j} of a dataset with {n} samples returned {got!r}"[:300])
+            evals += 1
         elif kind == "slice":
             sl = slice(acc[1], acc[2], acc[3])
             got = mw[sl]
@@ -198,10 +212,12 @@ def _ctx_keys(stack_spec, fused):
 
 @st.composite
 def access(draw):
-    k = draw(st.sampled_from(["int", "int", "int", "slice", "list", "iter", "len"]))
+    k = draw(st.sampled_from(["int", "int", "int", "slice", "list", "iter", "len", "oob"]))
     if k == "int":
         # python ints, and the integer types samplers and index arrays hand out (numpy scalars, 0-d tensors)
         return ["int", draw(st.integers(-40, 40)), draw(st.sampled_from(["py", "py", "np", "np32", "t0"]))]
+    if k == "oob":
+        return ["oob", draw(st.integers(0, 5)), draw(st.booleans())]
     if k == "slice":
         return ["slice", draw(st.one_of(st.none(), st.integers(-14, 14))), draw(st.one_of(st.none(), st.integers(-14, 14))),
                 draw(st.sampled_from([None, 1, 2, 3, -1, -2]))]
